@@ -1,7 +1,7 @@
 (* Type4Tag.send_apdu on top of the ISO-DEP exchange: header/Lc/Le encoding and status word
    handling never turn a sound exchange result into a wrong value. *)
 From Coq Require Import ZArith List Bool Lia ZifyBool.
-From NV Require Import Base.Result Base.Bytes Model.IsoDep Proofs.IsoDep Proofs.IsoDepSync.
+From NV Require Import Base.Result Base.Bytes Model.IsoDep Proofs.IsoDep Proofs.IsoDepSync Proofs.IsoDepBudget.
 Import ListNotations.
 Open Scope Z_scope.
 
@@ -58,9 +58,9 @@ Proof.
   destruct (negb (mrl =? 0) && (256 <? mrl)); [right; reflexivity|]. left; eauto.
 Qed.
 
-Theorem send_apdu_sound app k kc cla ins p1 p2 data mrl check pn c :
+Theorem send_apdu_sound app k mx kc cla ins p1 p2 data mrl check pn c :
   repaired k -> params_ok k kc -> in_step pn c ->
-  forall fuel sc, let o := send_apdu app fuel k kc cla ins p1 p2 data mrl check pn c sc in
+  forall fuel sc, let o := send_apdux app fuel k mx kc cla ins p1 p2 data mrl check pn c sc in
   match apdu_build cla ins p1 p2 data mrl with
   | Ok a =>
       (execs (o_card o) = execs c \/ execs (o_card o) = execs c ++ [a]) /\
@@ -74,13 +74,13 @@ Theorem send_apdu_sound app k kc cla ins p1 p2 data mrl check pn c :
   | _ => o_res o = Err ValueError /\ o_card o = c /\ o_blocks o = []      (* documented argument check, nothing sent *)
   end.
 Proof.
-  intros Hrep Hpar Hstep fuel sc. cbv zeta. unfold send_apdu.
+  intros Hrep Hpar Hstep fuel sc. cbv zeta. unfold send_apdux.
   destruct (apdu_build_cases cla ins p1 p2 data mrl) as [[a Ha] | He].
   - rewrite Ha. cbn [o_res o_card o_pni].
     pose proof (apdu_build_len _ _ _ _ _ _ _ Ha) as Hlen.
-    split; [apply (exchange_at_most_once app k kc a pn c Hrep Hpar Hstep Hlen fuel sc)|].
-    pose proof (exchange_result_sound app k kc a pn c Hrep Hpar Hstep Hlen fuel sc) as Hs. cbv zeta in Hs.
-    destruct (o_res (exchange app fuel k kc a pn c sc)) as [full | e | x |] eqn:Er.
+    split; [apply (exchangex_at_most_once app k kc a pn c Hrep Hpar Hstep Hlen mx fuel sc)|].
+    pose proof (exchangex_result_sound app k kc a pn c Hrep Hpar Hstep Hlen mx fuel sc) as Hs. cbv zeta in Hs.
+    destruct (o_res (fst (exchangex app fuel k mx kc a pn c sc))) as [full | e | x |] eqn:Er.
     + destruct Hs as (Hfull & Hex & Hin).
       pose proof (apdu_finish_cases check (Ok full) I) as Hc.
       destruct (apdu_finish check (Ok full)) as [r | e | x |] eqn:Ef; try contradiction.
